@@ -32,13 +32,21 @@ class Server:
         os.makedirs(os.path.join(build.BUILD, "work"), exist_ok=True)
         self.wd = tempfile.mkdtemp(prefix="h", dir=os.path.join(build.BUILD, "work"))
         self.path = os.path.join(self.wd, "s")
+        # stderr goes to a file: an undrained pipe would block a server that logs, and the tail is evidence when a request is dropped
+        self.errpath = os.path.join(self.wd, "stderr.log")
         self.p = subprocess.Popen([build.XSV, "serve", self.path, services], stdin=subprocess.PIPE,
-                                  stdout=subprocess.PIPE, stderr=subprocess.PIPE, text=True, bufsize=1,
+                                  stdout=subprocess.PIPE, stderr=open(self.errpath, "wb"), text=True, bufsize=1,
                                   env=dict(os.environ, **(env or {})))
         line = self.p.stdout.readline()
         if "READY" not in line:
-            raise RuntimeError("server did not start: " + line + self.p.stderr.read()[-500:])
+            raise RuntimeError("server did not start: " + line + self.stderr_tail())
         self.sock = os.path.join(self.path, "sock")
+
+    def stderr_tail(self, n=600):
+        try:
+            return open(self.errpath, "rb").read()[-n:].decode(errors="replace")
+        except OSError:
+            return ""
 
     def cmd(self, c):
         self.p.stdin.write(c + "\n")
@@ -63,11 +71,17 @@ class Server:
             self.p.kill()
         shutil.rmtree(self.wd, ignore_errors=True)
 
-    def request(self, raw: bytes, timeout=10.0, read_for=None):
-        """send raw bytes on a new connection; -> (status or None if no response, headers, body)"""
+    def request(self, raw: bytes, timeout=10.0, read_for=None, patience=None):
+        """send raw bytes on a new connection; -> (status or None if no response, headers, body).
+        "No response" means the server closed the connection without one, or stayed silent for `patience` seconds: a sandbox
+        I/O stall (an fsync that takes 10 s+ while gigabytes of scratch files are being deleted) is not a dropped connection,
+        so a plain request with nothing received yet is given 90 s before it is called unanswered"""
+        if patience is None:
+            patience = 90.0 if (read_for is None and timeout >= 10.0) else timeout
         s = socket.socket(socket.AF_UNIX, socket.SOCK_STREAM)
         s.settimeout(timeout)
         data = b""
+        self.last_hung = False
         try:
             s.connect(self.sock)
             try:
@@ -79,6 +93,9 @@ class Server:
                 try:
                     chunk = s.recv(65536)
                 except socket.timeout:
+                    if not data and time.time() - t0 < patience:
+                        continue
+                    self.last_hung = not data
                     break
                 if not chunk:
                     break
@@ -495,12 +512,15 @@ def run_sequence(seed, n_req, fixed=True, services="api"):
                 srv.gc()
             dump = srv.dump() if srv.alive() else None
             live = None
+            hung = status is None and getattr(srv, "last_hung", False)
             if status is None or (status >= 500):
-                st2, _, b2 = srv.request(render("GET", "/version"))
+                st2, _, b2 = srv.request(render("GET", "/version"), patience=20.0 if hung else None)
                 live = (st2 == 200)
             impl_lines.append((resp, "D " + str(len(dump)) + (" " + " ".join(dump) if dump else "") if dump is not None else "D dead", live))
             model_lines.append("REQ " + new_id + " " + " ".join(req["toks"]))
             reqs.append(req)
+            if hung:
+                break       # a request left unanswered for 90 s: reported as dropped; the rest of the sequence would only repeat it
         m = subprocess.run([build.XSMODEL, "http", "1" if fixed else "0"], input=("\n".join(model_lines) + "\n").encode(),
                            stdout=subprocess.PIPE, stderr=subprocess.PIPE, timeout=120)
         out = m.stdout.decode().splitlines()
@@ -519,6 +539,7 @@ def run_sequence(seed, n_req, fixed=True, services="api"):
         return dict(n=len(reqs), mismatches=mism, dropped=dropped, not_live=not_live, model_rc=m.returncode,
                     model_err=m.stderr.decode()[-500:], kinds=[r["kind"] for r in reqs],
                     statuses=[l[0].split(" ")[1] for l in impl_lines],
+                    stderr_tail=srv.stderr_tail() if (dropped or not_live) else "",
                     sample=[" ".join(r["toks"])[:120] for r in reqs[:6]],
                     raws=[r["raw"][:400].decode("latin1") for r in reqs])
     finally:
